@@ -10,7 +10,7 @@
    Define / Observe / Panic) and over ALL schedules — proved by induction over the schedule with an invariant of
    the machine (Proofs/CtxProofs.v: `Inv`, `step_inv`). *)
 From Coq Require Import ZArith NArith Bool List.
-From PcoreV Require Import Model.Base Model.Ctx Proofs.CtxProofs.
+From PcoreV Require Import Model.Base Model.Ctx Proofs.CtxProofs Proofs.CtxIsolation.
 Import ListNotations.
 Local Open Scope nat_scope.
 
@@ -110,6 +110,141 @@ Theorem C14_storage_never_missing :
 Proof. intros roots sched g st. apply no_table_panic. apply reachable_inv. Qed.
 Print Assumptions C14_storage_never_missing.
 
+(* ---- never observed from another goroutine; fork_isolated --------------------------------------------------- *)
+
+(* `owned c g st`: the contexts goroutine g can get hold of — its current one and those named by its frames
+   (lexical contexts of the enclosing bodies, contexts saved for restoring).  Every context belongs to ONE
+   goroutine: a context forked for a new goroutine belongs to the child alone, never to parent or siblings. *)
+Theorem C14_contexts_have_one_owner :
+  forall roots sched g h stg sth a,
+    let c := run sched (init_config roots) in
+    g <> h -> nth_error (gs c) g = Some stg -> nth_error (gs c) h = Some sth ->
+    In a (owned c g stg) -> ~ In a (owned c h sth).
+Proof.
+  intros roots sched g h stg sth a c Hne Eg Eh Ha Hb.
+  exact (own_disj c (reachable_own roots sched) g h stg sth a Hne Eg Eh Ha Hb).
+Qed.
+Print Assumptions C14_contexts_have_one_owner.
+
+(* In particular the current context of a goroutine is never the current context of another goroutine. *)
+Theorem C14_never_observed_elsewhere :
+  forall roots sched g h a,
+    let c := run sched (init_config roots) in
+    g <> h -> tl_get g (tls (sh c)) = Some a -> tl_get h (tls (sh c)) <> Some a.
+Proof.
+  intros roots sched g h a c. apply current_not_shared; [apply reachable_inv|apply reachable_own].
+Qed.
+Print Assumptions C14_never_observed_elsewhere.
+
+(* fork_isolated, contexts: a step of goroutine h — Set, Delete, StackPush, StackPop, SetLoader, DoWithLoader and
+   its restore, anything — leaves every context of every other goroutine g exactly as it is: variables, stack
+   frames and loader of a forked context are invisible to parent and siblings, and theirs to it ... *)
+Theorem C14_fork_isolated_step :
+  forall roots sched g h st a,
+    let c := run sched (init_config roots) in
+    h <> g -> nth_error (gs c) g = Some st -> In a (owned c g st) ->
+    nth_error (cheap (sh (step h c))) a = nth_error (cheap (sh c)) a.
+Proof.
+  intros roots sched g h st a c. apply step_ctx_isolated; [apply reachable_inv|apply reachable_own].
+Qed.
+Print Assumptions C14_fork_isolated_step.
+
+(* ... for as long as the others run: over ANY schedule in which g itself makes no step, each of g's contexts,
+   g's state and g's table entry stay what they were. *)
+Theorem C14_fork_isolated :
+  forall roots sched0 g sched st a,
+    let c := run sched0 (init_config roots) in
+    ~ In g sched -> nth_error (gs c) g = Some st -> In a (owned c g st) ->
+    nth_error (cheap (sh (run sched c))) a = nth_error (cheap (sh c)) a /\
+    nth_error (gs (run sched c)) g = Some st /\
+    tl_find g (tls (sh (run sched c))) = tl_find g (tls (sh c)).
+Proof.
+  intros roots sched0 g sched st a c. apply run_ctx_isolated; [apply reachable_inv|apply reachable_own].
+Qed.
+Print Assumptions C14_fork_isolated.
+
+(* The parent's earlier ones are visible to the child: the step px.Fork(lexical context a) / px.Go (context a
+   current) starts a goroutine whose context is a NEW context fa that has the parent's variables and stack frames
+   as they are at that moment, and finds through its own new loader every definition the parent's context finds;
+   the parent's context is untouched. *)
+Theorem C14_fork_inherits :
+  forall roots sched g st env stmt lbl body ps K a ctx,
+    let c := run sched (init_config roots) in
+    nth_error (gs c) g = Some st -> g_stack st = KSeq env (stmt :: ps) :: K ->
+    (stmt = PFork lbl body /\ hd_error env = Some a) \/ (stmt = PGo lbl body /\ tl_get g (tls (sh c)) = Some a) ->
+    nth_error (cheap (sh c)) a = Some ctx ->
+    let c' := step g c in let fa := length (cheap (sh c)) in
+    nth_error (gs c') (length (gs c)) = Some (child_state fa body) /\
+    exists cf, nth_error (cheap (sh c')) fa = Some cf /\
+      c_vars cf = c_vars ctx /\ c_stack cf = c_stack ctx /\
+      (forall n, load (lheap (sh c')) (c_loader cf) n = load (lheap (sh c)) (c_loader ctx) n) /\
+      c_loader cf = length (lheap (sh c)) /\ nth_error (cheap (sh c')) a = Some ctx.
+Proof.
+  intros roots sched g st env stmt lbl body ps K a ctx c. apply fork_inherits. apply reachable_linv.
+Qed.
+Print Assumptions C14_fork_inherits.
+
+(* fork_isolated, definitions.  `Blind x c h`: no context of goroutine h has a loader that sees loader x (x is
+   neither that loader nor one of its ancestors), nor will DoWithLoader restore such a loader.
+   (1) Right after the fork, the loader Lc of the forked context is seen by the child alone; and under every
+   continuation of the schedule every goroutine that exists at that moment — the parent, the elder siblings,
+   everybody but the child — stays blind for Lc, whatever SetLoader / DoWithLoader / Fork they or the child do. *)
+Theorem C14_fork_isolated_loader :
+  forall roots sched0 g st env stmt lbl body ps K a ctx i st' sched,
+    let c := run sched0 (init_config roots) in
+    nth_error (gs c) g = Some st -> g_stack st = KSeq env (stmt :: ps) :: K ->
+    (stmt = PFork lbl body /\ hd_error env = Some a) \/ (stmt = PGo lbl body /\ tl_get g (tls (sh c)) = Some a) ->
+    nth_error (cheap (sh c)) a = Some ctx ->
+    i <> length (gs c) -> nth_error (gs (step g c)) i = Some st' ->
+    Blind (length (lheap (sh c))) (run sched (step g c)) i.
+Proof.
+  intros roots sched0 g st env stmt lbl body ps K a ctx i st' sched c.
+  apply fork_blind_run; [apply reachable_inv|apply reachable_own|apply reachable_linv].
+Qed.
+Print Assumptions C14_fork_isolated_loader.
+
+(* (2) Blindness is kept under every schedule and inherited by every goroutine a blind goroutine forks: the
+   siblings forked later by the parent are blind for Lc as well. *)
+Theorem C14_fork_isolated_loader_inherited :
+  forall roots sched0 x h,
+    let c := run sched0 (init_config roots) in
+    0 < x < length (lheap (sh c)) -> Blind x c h ->
+    (forall sched, Blind x (run sched c) h) /\
+    (forall ch sched, nth_error (gs (step h c)) (length (gs c)) = Some ch ->
+                      Blind x (run sched (step h c)) (length (gs c))).
+Proof.
+  intros roots sched0 x h c.
+  apply blind_inherited; [apply reachable_inv|apply reachable_own|apply reachable_linv].
+Qed.
+Print Assumptions C14_fork_isolated_loader_inherited.
+
+(* (3) Definitions are visible along the loader chain only: a step of goroutine d changes what a loader lb finds
+   (for any name) only if it is a statement of d acting on a context whose loader lb sees. *)
+Theorem C14_definitions_follow_loader_chain :
+  forall roots sched d lb,
+    let c := run sched (init_config roots) in
+    lb < length (lheap (sh c)) ->
+    (forall n, load (lheap (sh (step d c))) lb n = load (lheap (sh c)) lb n) \/
+    (exists st env p ps K a ctx, nth_error (gs c) d = Some st /\ g_stack st = KSeq env (p :: ps) :: K /\
+       hd_error env = Some a /\ nth_error (cheap (sh c)) a = Some ctx /\ sees (lheap (sh c)) lb (c_loader ctx)).
+Proof. intros roots sched d lb c. apply step_load_frame. apply reachable_linv. Qed.
+Print Assumptions C14_definitions_follow_loader_chain.
+
+(* (1)+(2)+(3): a definition made in the forked context — through any context whose loader sees Lc, i.e. the
+   forked context itself or one derived from it by the child and its descendants — changes nothing that a context
+   of a goroutine blind for Lc (parent, siblings) can load. *)
+Theorem C14_fork_isolated_definitions :
+  forall roots sched x d h st b cb,
+    let c := run sched (init_config roots) in
+    Blind x c h -> nth_error (gs c) h = Some st -> In b (owned c h st) -> nth_error (cheap (sh c)) b = Some cb ->
+    (forall std env p ps K a ctx, nth_error (gs c) d = Some std -> g_stack std = KSeq env (p :: ps) :: K ->
+       hd_error env = Some a -> nth_error (cheap (sh c)) a = Some ctx -> sees (lheap (sh c)) (c_loader ctx) x) ->
+    forall n, load (lheap (sh (step d c))) (c_loader cb) n = load (lheap (sh c)) (c_loader cb) n.
+Proof.
+  intros roots sched x d h st b cb c. apply blind_load_frame; [apply reachable_inv|apply reachable_linv].
+Qed.
+Print Assumptions C14_fork_isolated_definitions.
+
 (* ---- non-vacuity ---------------------------------------------------------------------------------------------------------- *)
 
 (* One root goroutine: Observe; Do { Set; Observe; Fork {Observe; Set; Observe; panic}; Set;
@@ -162,3 +297,29 @@ Example C14_nonvacuous_restored :
   tl_find 0 (tls (sh c')) = Some (Some 1) /\
   option_map (fun st => hd_error (g_trace st)) (nth_error (gs c') 0) = Some (Some (EPanic PUser)).
 Proof. vm_compute. split; [eexists _, _, _; split; reflexivity|auto]. Qed.
+
+(* the hypotheses of C14_fork_inherits / C14_fork_isolated_loader are satisfiable: after 8 steps goroutine 0 is
+   about to execute px.Fork with its lexical context 1 (k0 = 1); the step creates goroutine 1 with the new context 2
+   (k0 = 1 inherited) and the new loader 2; after that step goroutine 0 is blind for loader 2 *)
+Example C14_nonvacuous_fork :
+  let c := run (firstn 8 ex_sched) (init_config ex_roots) in
+  (exists st body ps K, nth_error (gs c) 0 = Some st /\ g_stack st = KSeq [1] (PFork 4%N body :: ps) :: K) /\
+  option_map c_vars (nth_error (cheap (sh c)) 1) = Some [(0%N, 1%Z)] /\
+  length (gs c) = 1 /\ length (cheap (sh c)) = 2 /\ length (lheap (sh c)) = 2 /\
+  option_map c_vars (nth_error (cheap (sh (step 0 c))) 2) = Some [(0%N, 1%Z)] /\
+  option_map c_loader (nth_error (cheap (sh (step 0 c))) 2) = Some 2 /\
+  option_map c_loader (nth_error (cheap (sh (step 0 c))) 1) = Some 1.
+Proof. vm_compute. split; [eexists _, _, _, _; split; reflexivity|auto 10]. Qed.
+
+(* definitions: the child finds what the parent defined before the fork (n0 = 10) and its own (n1 = 20); the
+   parent does not find the child's definition, before or after *)
+Definition ex_roots2 : list (list prog) :=
+  [[PDo 1%N false [PDefine 0%N 10%Z; PFork 2%N [PDefine 1%N 20%Z; PObserve 3%N]; PObserve 4%N]]].
+Definition loads_of (e : event) : list (label * option (list lres)) :=
+  match e with EObs l _ lex => [(l, option_map lo_loads lex)] | _ => [] end.
+Example C14_nonvacuous_definitions :
+  map (fun tr => flat_map loads_of tr)
+      (traces (run [0; 0; 0; 1; 1; 1; 1; 0; 0; 0] (init_config ex_roots2))) =
+  [[(4%N, Some [LFound 10%Z; LMissing; LMissing])];
+   [(3%N, Some [LFound 10%Z; LFound 20%Z; LMissing])]].
+Proof. vm_compute. reflexivity. Qed.
